@@ -32,6 +32,10 @@ class ResultShape(Exception):
         self.name, self.got, self.want = name, got, want
 
 
+class EnoughRefuted(Exception):
+    """raised inside a whole-harness exploration once 16 obligations of the task have been refuted"""
+
+
 class CalleeNotCalled(ResultShape):
     """the code under contract returned without calling a callee whose contract the harness substitutes (so the
     result cannot have come from it): failed obligation <name>/callee-called"""
@@ -234,6 +238,8 @@ class Mode:
             if ex is not None and ex.pc:
                 from . import paths as P
 
+                if getattr(self, "_nfailed", 0) >= 16:
+                    raise EnoughRefuted()  # 16 fully analysed refutations in this task: the rest adds nothing to the verdict
                 fs = ex.fixed + P.pc_formulas(ex.pc)
                 cache = ex.__dict__.setdefault("_cx", {})  # per path: feasibility and one concrete point, shared by its obligations
                 if cache.get("n") != len(ex.pc):
@@ -254,11 +260,6 @@ class Mode:
                     return self._rec(name, "undecided", "z3", dt, detail="values differ on a path whose feasibility is unknown")
                 concl = ("atom", alg.v_sub(vg, ve), "==")
                 real = None
-                if getattr(self, "_nfailed", 0) >= 40:
-                    # the contract is already refuted 40 times over in this task (each of those went through the full
-                    # analysis below): record the polyid verdict without further solver work
-                    return self._rec(name, "failed", "polyid", time.time() - t, cex={"env": cache.get("env") or model},
-                                     got=alg.fmt(vg, 8), exp=alg.fmt(ve, 8), detail="differs on a feasible path (analysis cut short after 40 refutations in this task)")
                 if cache.get("env") is not None and P.check_point(fs, concl, cache["env"]):
                     real = cache["env"]
                     P.LAST_DIFF[0] = 0.0
@@ -267,7 +268,8 @@ class Mode:
                     real = P.numeric_counterexample(fs, concl, model)
                     if real is not None:
                         cache["env"] = real
-                if real is None:
+                if real is None and sum(len(part.n) for part in alg.simple_parts(diff)) <= 120:
+                    # small residue: let the solver try to derive the equality from the path condition
                     st, _m, dt2 = P.check_implies(fs, ("atom", diff, "=="))
                     if st == "discharged":
                         return self._rec(name, "discharged", "z3", time.time() - t, detail="path condition implies the equality")
@@ -706,8 +708,11 @@ def _explore_harness(h, shape, M):
         S.set_decider(ex.decide)
         M.results = []
         M.explorer = ex
+        enough = False
         try:
             h.run(shape, M)
+        except EnoughRefuted:
+            enough = True
         finally:
             S.set_decider(None)
             M.explorer = None
@@ -717,7 +722,7 @@ def _explore_harness(h, shape, M):
         for i in range(len(prefix), len(ex.trace)):
             stack.append(ex.trace[:i] + [not ex.trace[i]])
         npaths += 1
-        if stack and sum(1 for r in allres if r["status"] == "failed") >= 40:
+        if enough or (stack and sum(1 for r in allres if r["status"] == "failed") >= 16):
             break  # the contract is already refuted on the explored paths; further paths add nothing to the verdict
         if stack and (npaths >= 1024 or (npaths >= 8 and time.time() - t_start > 45.0)):
             # budget exhausted: what the explored paths established (including failed obligations) is kept, the rest
